@@ -50,22 +50,6 @@ func (b *readBook) events(remote string) int64 {
 	return b.ev[remote]
 }
 
-// countConn counts the raw bytes a (TLS) client put on the wire.
-type countConn struct {
-	net.Conn
-	mu sync.Mutex
-	w  int64
-}
-
-func (c *countConn) Write(p []byte) (int, error) {
-	n, err := c.Conn.Write(p)
-	c.mu.Lock()
-	c.w += int64(n)
-	c.mu.Unlock()
-	return n, err
-}
-func (c *countConn) written() int64 { c.mu.Lock(); defer c.mu.Unlock(); return c.w }
-
 func (b *readBook) get(remote string) int64 {
 	b.mu.Lock()
 	defer b.mu.Unlock()
@@ -168,10 +152,8 @@ func runE2E(casesPath string, nrand int) {
 		}
 		me := tc0.LocalAddr().String()
 		var c net.Conn = tc0
-		var raw *countConn
 		if kind == "tls" {
-			raw = &countConn{Conn: tc0}
-			tc := tls.Client(raw, &tls.Config{InsecureSkipVerify: true, ServerName: "c07.test"})
+			tc := tls.Client(tc0, &tls.Config{InsecureSkipVerify: true, ServerName: "c07.test"})
 			tc0.SetDeadline(time.Now().Add(asyncWait))
 			if err := tc.Handshake(); err != nil {
 				tr.Emit(vh.Ev{"ev": "err", "what": "tls-handshake-failed"})
@@ -182,9 +164,7 @@ func runE2E(casesPath string, nrand int) {
 		}
 		// bytes of this client MOSN must have taken from the socket once everything written so far was read
 		expectRead := func(plain int) int64 {
-			if raw != nil {
-				return raw.written()
-			}
+			// (on a TLS connection the hook reports the decrypted bytes the read loop received)
 			if kind == "inspector" {
 				return int64(plain - 1) // the peeked first byte is taken outside the read loop
 			}
